@@ -202,6 +202,54 @@ def options_connectivity(rng):
     return None, (argvA, argvB)
 
 
+def curved_motion(rng):
+    """a wire with a curved object on its end (a helix hook of one to six segments, an arc), solved as written and after a
+    rigid motion of the whole structure requested through the options: same unknowns, same feed impedance and currents"""
+    from common import run_main
+    g17 = lambda v: ','.join('%.17g' % x for x in v)
+    f = 14.0
+    if rng.random() < 0.7:
+        n = rng.choice([1, 2, 2, 2, 3, 4, 6])
+        turns = rng.uniform(0.2, 0.33) * n
+        ln = rng.uniform(0.4, 1.0)
+        curve = ['-H', '1,%d,%.17g,%.17g,.002,%.17g,%.17g' % (n, ln, ln / turns * rng.choice([1, -1]), rng.uniform(0.3, 0.5), rng.uniform(0.3, 0.5))]
+    else:
+        curve = ['-a', '1,%d,%.17g,%g,%g,.002' % (rng.randint(3, 6), rng.uniform(0.5, 1.0), rng.choice([0.0, 40.0]), rng.choice([120.0, 200.0]))]
+    # the end points of the curve as the program places it (a detached wire carries the source: a one-segment object has no pulse)
+    m0 = run_main(['-f', '%g' % f] + curve + ['-w', '9,3,50,50,50,50,50,53,.002', '--excitation-pulse=1,9'], want_mininec=True)['m']
+    if m0 is None:
+        return 'curved object rejected', (curve, None)
+    e = [float(x) for x in m0.geo[0].endpoints[rng.choice([0, 1])]]
+    d = np.array([rng.uniform(-1, 1), rng.uniform(-1, 1), rng.uniform(0.3, 1.0)]); d /= np.linalg.norm(d)
+    far = [e[k] + float(d[k]) * 9.0 for k in range(3)]
+    w = e + far if rng.random() < 0.5 else far + e
+    base = ['-f', '%g' % f] + curve + ['-w', '2,9,%s,.002' % g17(w), '--excitation-pulse=5,2']
+    mot = []
+    if rng.random() < 0.85:
+        mot.append('--geo-rotate=1,%s' % g17([rng.choice([0.0, 90.0, rng.uniform(-180, 180)]) for _ in range(3)]))
+    if rng.random() < 0.6:
+        mot.append('--geo-translate=2,%s' % g17([rng.uniform(-5, 5) for _ in range(3)]))
+    if not mot:
+        mot.append('--geo-rotate=1,0,0,30')
+    ma = run_main(base, want_mininec=True)['m']; mb = run_main(base + mot, want_mininec=True)['m']
+    if ma is None or mb is None:
+        return 'structure rejected as written (%s) or with the motion options (%s)' % (ma is not None, mb is not None), (base, base + mot)
+    if len(ma.pulses) != len(mb.pulses):
+        return 'the structure as written has %d unknowns, after the rigid motion %d' % (len(ma.pulses), len(mb.pulses)), (base, base + mot)
+    ma.compute(); mb.compute()
+    cn = max(float(np.linalg.cond(ma.Z)), float(np.linalg.cond(mb.Z)))
+    if cn > 1e5:
+        return None, (base, base + mot)
+    tol = 5e-4 if cn <= 1e3 else 5e-7 * cn
+    za, zb = ma.sources[0].impedance, mb.sources[0].impedance
+    if abs(za - zb) > tol * abs(za):
+        return 'feed impedance %r as written, %r after the rigid motion %r' % (za, zb, mot), (base, base + mot)
+    sc = float(np.max(np.abs(ma.current)))
+    if float(np.max(np.abs(ma.current - mb.current))) > tol * sc:
+        return 'currents differ by %.3g (relative) after the rigid motion %r' % (float(np.max(np.abs(ma.current - mb.current))) / sc, mot), (base, base + mot)
+    return None, (base, base + mot)
+
+
 R90 = np.array([[0.0, -1.0, 0.0], [1.0, 0.0, 0.0], [0.0, 0.0, 1.0]])
 
 
@@ -333,6 +381,12 @@ def run(ck):
         bad, argvs = options_connectivity(rng)
         ck.case(('options-connectivity', i), True)
         ck.count('options_connectivity_cases')
+        if bad:
+            viol.append(dict(kind='options-connectivity', observed=bad, argv_coordinates=argvs[0], argv_options=argvs[1]))
+    for i in range(16 if ck.tier == 'quick' else 200):
+        bad, argvs = curved_motion(rng)
+        ck.case(('curved-motion', i), True)
+        ck.count('curved_motion_cases')
         if bad:
             viol.append(dict(kind='options-connectivity', observed=bad, argv_coordinates=argvs[0], argv_options=argvs[1]))
     for i in range(10 if ck.tier == 'quick' else 100):
